@@ -186,7 +186,7 @@ func result(value, category, input string) types.XValue {
 	return xobj(map[string]types.XValue{
 		"__default__":        xtext(value),
 		"value":              xtext(value),
-		"category":           xtext(category),
+		"category":           xtext("base:" + category), // the legacy .category is the localized name
 		"category_localized": xtext(category),
 		"input":              xtext(input),
 		"name":               xtext("Result"),
